@@ -41,6 +41,16 @@ def P(vc, name):
     return g.Point(vc.real(name + ".x"), vc.real(name + ".y"), vc.real(name + ".z"))
 
 
+def _random_unit(vc, name):
+    """in random concrete search, draw an exactly unit rational vector for the three reals name.x/.y/.z"""
+    rng = getattr(vc, "rng", None)
+    if rng is not None and (name + ".x") not in vc.values:
+        from g3dvc.engine import UNIT_VECTORS
+        u = rng.choice(UNIT_VECTORS)
+        for k, c in zip("xyz", u):
+            vc.values[name + "." + k] = Fraction(c)
+
+
 def line(vc, name):
     """a valid Line: direction not zero (invariant established by Line.__init__, C15)"""
     g = G()
@@ -56,6 +66,7 @@ def plane(vc, name):
     g = G()
     p = g.Plane.__new__(g.Plane)
     p.p = P(vc, name + ".p")
+    _random_unit(vc, name + ".n")
     p.n = V(vc, name + ".n")
     vc.assume(SP.eq(SP.norm2(SP.vec(p.n)), 1), "invariant Plane: |n| = 1")
     return p
@@ -429,13 +440,41 @@ def flat_member(x, o):
 # convex polygon / polyhedron operands (shape = number of vertices / faces)
 # ---------------------------------------------------------------------------
 
+def _random_polygon(vc, name, n):
+    """in random concrete search: a convex lattice n-gon, counter-clockwise about its unit normal, in an oblique rational frame"""
+    rng = getattr(vc, "rng", None)
+    if rng is None or ("%s.p0.x" % name) in vc.values:
+        return
+    from g3dvc import catalogue as K
+    from g3dvc import oracle as O
+    cands = [pts for nm, pts in K.POLYGON_TEMPLATES if len(pts) == n]
+    if not cands:
+        return
+    pts2 = rng.choice(cands)
+    R = rng.choice(K.ROTATIONS)
+    e1, e2 = K.mat_vec(R, (1, 0, 0)), K.mat_vec(R, (0, 1, 0))
+    nrm = O.cross(e1, e2)
+    org = tuple(Fraction(rng.randint(-6, 6)) for _ in range(3))
+    pts3 = [O.add(org, O.add(O.scale(Fraction(y), e1), O.scale(Fraction(z), e2))) for y, z in pts2]
+    for i, q in enumerate(pts3):
+        for k, c in zip("xyz", q):
+            vc.values["%s.p%d.%s" % (name, i, k)] = Fraction(c)
+    for k, c in zip("xyz", nrm):
+        vc.values["%s.n.%s" % (name, k)] = Fraction(c)
+    base = rng.choice(pts3)
+    for k, c in zip("xyz", base):
+        vc.values["%s.plane_p.%s" % (name, k)] = Fraction(c)
+
+
 def polygon(vc, name, n, convex=True):
     """a valid ConvexPolygon with n vertices: coplanar, unit normal, (optionally) strictly convex position
     counter-clockwise about the normal stated for ALL edge/vertex pairs, centre = vertex mean"""
     g = G()
+    _random_polygon(vc, name, n)
     pg = g.ConvexPolygon.__new__(g.ConvexPolygon)
     pts = [P(vc, "%s.p%d" % (name, i)) for i in range(n)]
     pl = g.Plane.__new__(g.Plane)
+    _random_unit(vc, name + ".n")
     pl.n = V(vc, name + ".n")
     nv = SP.vec(pl.n)
     vc.assume(SP.eq(SP.norm2(nv), 1), "invariant Plane: |n| = 1")
@@ -478,6 +517,7 @@ def polyhedron_faces(vc, name, F_):
         f = g.ConvexPolygon.__new__(g.ConvexPolygon)
         f.center_point = P(vc, "%s.f%d.c" % (name, i))
         pl = g.Plane.__new__(g.Plane)
+        _random_unit(vc, "%s.f%d.n" % (name, i))
         pl.n = V(vc, "%s.f%d.n" % (name, i))
         vc.assume(SP.eq(SP.norm2(SP.vec(pl.n)), 1), "invariant: unit face normal")
         pl.p = f.center_point
